@@ -71,7 +71,7 @@ Theorem total_charge_is_sum (gs : list (grp R)) ph :
   total_charge gs ph =
   (sumR (map (fun g => charge (grp_charge g) (grp_model_pka g) ph) (filter (fun g => grp_titratable g) gs)),
    sumR (map (fun g => charge (grp_charge g) (grp_pka_value g) ph) (filter (fun g => grp_titratable g) gs))).
-Proof. unfold total_charge, zero. rewrite total_charge_acc. num_unfold. rewrite lit0. f_equal; lra. Qed.
+Proof. unfold total_charge, fzero. rewrite total_charge_acc. num_unfold. rewrite lit0. f_equal; lra. Qed.
 
 Theorem profile_rows (gs : list (grp R)) grid :
   charge_profile gs grid = map (fun ph => (ph, Qunfolded gs ph, Qfolded gs ph)) grid.
@@ -99,7 +99,7 @@ Lemma pi_unfold fuel pH lo hi :
   if Rltb prec (hi - lo) then
     if Rltb 0 (Q pH) then pi Q prec fuel ((pH + hi) / 2) pH hi else pi Q prec fuel ((lo + pH) / 2) lo pH
   else Some pH.
-Proof. cbn [pi]. unfold zero. num_unfold. rewrite lit0. replace (IZR 2 / IZR 1) with 2 by lra. reflexivity. Qed.
+Proof. cbn [pi]. unfold fzero. num_unfold. rewrite lit0. replace (IZR 2 / IZR 1) with 2 by lra. reflexivity. Qed.
 
 Lemma pi_brackets : forall fuel pH lo hi p,
   lo <= pH <= hi -> 0 < Q lo -> Q hi <= 0 ->
